@@ -198,8 +198,26 @@ def work(ctx):
             flat = [(bi, ii, i) for bi, b in enumerate(d.blocks) for ii, i in enumerate(b) if isinstance(i.arg, (Constant, Name, Varname, Cellvar))]
             if flat:
                 bi, ii, ins = rng.choice(flat)
-                kind = rng.choice(["gap", "collide", "negative"])
-                if kind == "gap":
+                kind = rng.choice(["gap", "collide", "negative", "pinned-slot-taken", "pinned-slot-taken"])
+                if kind == "pinned-slot-taken":
+                    # the FIRST operand of its table is pinned at index 1; the next new value of that table has no override and
+                    # is handed slot len(table) == 1, which the pinned operand already owns: a collision between a pinned and an
+                    # automatically placed entry (what a user gets who inserts an instruction into decoded data)
+                    # operands A, B, C, D of one table with four different values, in order of first use:
+                    # A unpinned (slot 0), B pinned at 2, C unpinned - it is handed slot len(table) == 2, which B owns -
+                    # and D pinned at 1, so that no gap is left that would make to_tuple raise for another reason
+                    by_type = {}
+                    for b2, i2, x in flat:
+                        seen = by_type.setdefault(type(x.arg), [])
+                        if repr(x.arg) not in [r for r, _ in seen]:
+                            seen.append((repr(x.arg), (b2, i2, x)))
+                    cands = [t for t, l in by_type.items() if len(l) >= 4]
+                    if not cands:
+                        continue
+                    four = [v for _, v in by_type[rng.choice(cands)][:4]]
+                    bi, ii, ins = four[1]
+                    ov = 2
+                elif kind == "gap":
                     ov = rng.choice([5000, 300, 66000])
                 elif kind == "negative":
                     ov = -1
@@ -208,6 +226,9 @@ def work(ctx):
                 newarg = dataclasses.replace(ins.arg, _index_override=ov)
                 blocks = [list(b) for b in d.blocks]
                 blocks[bi][ii] = dataclasses.replace(ins, arg=newarg)
+                if kind == "pinned-slot-taken":
+                    b4, i4, x4 = four[3]
+                    blocks[b4][i4] = dataclasses.replace(x4, arg=dataclasses.replace(x4.arg, _index_override=1))
                 if kind == "collide":
                     # a second, different value pinned at the same index
                     others = [(b2, i2, x) for b2, i2, x in flat if type(x.arg) is type(ins.arg) and x.arg != ins.arg and (b2, i2) != (bi, ii)]
